@@ -141,7 +141,9 @@ func H_C04_uri(n1, n2 int) {
 	if e == NoURIErr {
 		u.Flat(b1)
 		u.Short()
-		np := PField{Offs: OffsT(vU16()), Len: OffsT(vU16())}
+		no, nl := vU16(), vU16()
+		vAssume(int(no)+int(nl) <= 65535) // a span inside the 65535-byte addressing limit
+		np := PField{Offs: OffsT(no), Len: OffsT(nl)}
 		u.AdjustOffs(np)
 		u.Truncate()
 	}
